@@ -87,7 +87,7 @@ def final_of(t):
 
 def judge(d, traces, chunk=300):
     """Returns (set of indexes into traces that are NOT prescribed, number judged, states, transitions)."""
-    shutil.copy(os.path.join(common.SPEC, 'engine', 'WfSemantics.tla'), d)
+    common.put_spec(d, os.path.join('engine', 'WfSemantics.tla'))
     idx = [i for i, t in enumerate(traces) if eligible(t)]
     groups = {}
     for i in idx:
